@@ -8,6 +8,7 @@ Parameters, not proved (DESIGN §5 K3): float rendering (`repr`) and `unidecode`
 hit / hold / sample lines contain integers only and are proved down to the characters.
 -/
 import Reamber.Lemmas.OsuHeader
+import Reamber.Lemmas.OsuDenote
 import Reamber.Generated.OsuTables
 
 namespace Reamber.Osu
